@@ -31,6 +31,8 @@ import (
 //	findChangedRect, snapToEven, blending predicates, qualityToMaxDiff, sanitizeKeyframeOptions,
 //	clampLoopCount, splitAlphaAndBitstream vs their Lean models                               (correspondence)
 //	exhaustive: all two-frame sequences over the 2x2 canvas with alpha {0,128,255} x two colours
+//	streams: main, sizes (pictures that need normalising: other size / view), alpha (noise and n-level alpha planes),
+//	frame-count thresholds, reuse (caller buffer), threshold / wide-row canvases, sub-image probe
 func init() {
 	suites["animenc"] = suiteAnimEnc
 	replayers["animenc"] = replayAnimEnc
@@ -47,7 +49,14 @@ type aeFrame struct {
 	dur  int // milliseconds
 	w, h int
 	pix  []byte // w*h*4 RGBA (non-premultiplied)
+	// how the picture is held by the caller: Rect.Min = (ox, oy) and pad unused pixels behind every row
+	// (Stride = 4*(w+pad)), i.e. a view into a larger buffer. AddFrame shows the CONTENT at (0,0) of the
+	// canvas whatever the origin is; any of the three non-zero makes the encoder normalise the picture.
+	ox, oy, pad int
 }
+
+// view: the picture is handed over as a view (non-zero origin or padded stride).
+func (f aeFrame) view() bool { return f.ox != 0 || f.oy != 0 || f.pad != 0 }
 
 type aeCase struct {
 	w, h            int
@@ -65,6 +74,7 @@ type aeCase struct {
 	// threshold / wide-row stream bookkeeping
 	thr     *ThresholdCase
 	wideTag string
+	cnt     *CountCase // the frame count sits on this threshold (frame-count stream)
 	// generator bookkeeping (distribution only)
 	alphaCls, durCls string
 	genSteps         []string
@@ -124,7 +134,11 @@ func (c *aeCase) leanLine(oracle string) string {
 func (c *aeCase) input(line, oracle string) map[string]any {
 	fr := make([]any, 0, len(c.frames))
 	for _, f := range c.frames {
-		fr = append(fr, map[string]any{"dur": f.dur, "w": f.w, "h": f.h, "hex": hx(f.pix)})
+		m := map[string]any{"dur": f.dur, "w": f.w, "h": f.h, "hex": hx(f.pix)}
+		if f.view() {
+			m["ox"], m["oy"], m["pad"] = f.ox, f.oy, f.pad
+		}
+		fr = append(fr, m)
 	}
 	return map[string]any{"op": "animenc", "w": c.w, "h": c.h, "lossless": c.lossless, "mixed": c.mixed,
 		"quality": c.quality, "kmin": c.kmin, "kmax": c.kmax, "loop": c.loop, "frames": fr,
@@ -178,6 +192,12 @@ func aeCaseFromInput(in map[string]any) (*aeCase, bool) {
 		if !g1 || !g2 || !g3 || len(f.pix) != 4*f.w*f.h || f.w <= 0 || f.h <= 0 {
 			return nil, false
 		}
+		f.ox, _ = aeNum(m["ox"]) // absent: a plain picture
+		f.oy, _ = aeNum(m["oy"])
+		f.pad, _ = aeNum(m["pad"])
+		if f.pad < 0 || f.pad > 64 {
+			return nil, false
+		}
 		c.frames = append(c.frames, f)
 	}
 	return c, ok
@@ -200,6 +220,17 @@ func aePlace(w, h int, f aeFrame) []byte {
 // image builds the picture handed to AddFrame.
 func (c *aeCase) image(i int) *image.NRGBA {
 	f := c.frames[i]
+	if !c.subimage && f.view() {
+		// a view: parent with pad extra columns and one extra row, filled with garbage that must never be seen
+		big := image.NewNRGBA(image.Rect(f.ox, f.oy, f.ox+f.w+f.pad, f.oy+f.h+1))
+		for k := range big.Pix {
+			big.Pix[k] = byte(0x33 + 11*k + k>>7)
+		}
+		for y := 0; y < f.h; y++ {
+			copy(big.Pix[y*big.Stride:y*big.Stride+4*f.w], f.pix[y*f.w*4:(y+1)*f.w*4])
+		}
+		return big.SubImage(image.Rect(f.ox, f.oy, f.ox+f.w, f.oy+f.h)).(*image.NRGBA)
+	}
 	if !c.subimage {
 		img := image.NewNRGBA(image.Rect(0, 0, f.w, f.h))
 		copy(img.Pix, f.pix)
@@ -684,7 +715,7 @@ func aeRunInner(c *aeCase, g *aeGo, memo bool) string {
 		lo := len(rec.calls)
 		fcBefore := enc.VerifState().FrameCount
 		img := c.image(i)
-		if f := c.frames[i]; reuseBuf != nil && f.w == c.w && f.h == c.h {
+		if f := c.frames[i]; reuseBuf != nil && f.w == c.w && f.h == c.h && !f.view() {
 			copy(reuseBuf.Pix, f.pix) // the caller redraws its buffer
 			img = reuseBuf
 		}
@@ -1215,7 +1246,7 @@ func aeCropFrame(f aeFrame, nw, nh int) aeFrame {
 	for y := 0; y < h; y++ {
 		p = append(p, f.pix[y*f.w*4:(y*f.w+w)*4]...)
 	}
-	return aeFrame{f.dur, w, h, p}
+	return aeFrame{dur: f.dur, w: w, h: h, pix: p, ox: f.ox, oy: f.oy, pad: f.pad}
 }
 
 // aeShrink reduces the case while the violation (same kind/property/signature) persists.
@@ -1252,6 +1283,17 @@ func aeShrink(c *aeCase, v aeViolation, budget int) (*aeCase, aeViolation) {
 		n := cur.clone()
 		n.reuse = false
 		try(n)
+	}
+	// views (non-zero origin / padded stride) -> plain pictures of the same content, all at once
+	for _, f := range cur.frames {
+		if f.view() {
+			n := cur.clone()
+			for i := range n.frames {
+				n.frames[i].ox, n.frames[i].oy, n.frames[i].pad = 0, 0, 0
+			}
+			try(n)
+			break
+		}
 	}
 	for progress := true; progress && budget > 0; {
 		progress = false
@@ -1292,7 +1334,7 @@ func aeShrink(c *aeCase, v aeViolation, budget int) (*aeCase, aeViolation) {
 		for i := range cur.frames {
 			if f := cur.frames[i]; f.w != cur.w || f.h != cur.h {
 				n := cur.clone()
-				n.frames[i] = aeFrame{f.dur, cur.w, cur.h, aePlace(cur.w, cur.h, f)}
+				n.frames[i] = aeFrame{dur: f.dur, w: cur.w, h: cur.h, pix: aePlace(cur.w, cur.h, f)}
 				if try(n) {
 					progress = true
 				}
@@ -1473,6 +1515,28 @@ func aeSequences(rep *Report, rp *aeReporter, n int, subimage bool, gen func(i i
 						rep.Count("handover:" + ho + ":key-frame-then-new-picture")
 					}
 				}
+				if c.cnt != nil {
+					CountCount(rep, *c.cnt)
+					rep.Count(fmt.Sprintf("frame-count-case:%s:%s:kmax%d", c.cnt.String(), c.mode(), c.kmax))
+				}
+				if nn, unc := aeNormalised(c); nn > 0 {
+					rep.Count("normalised-pictures:" + aeLenBucket(nn))
+					if nn >= 2 {
+						rep.Count("normalised-pictures:>=2")
+					}
+					if unc {
+						rep.Count("normalised-pictures:later-does-not-cover-earlier:" + c.mode())
+					}
+					views := 0
+					for _, f := range c.frames {
+						if f.view() {
+							views++
+						}
+					}
+					if views > 0 {
+						rep.Count("handover:views(origin/stride)")
+					}
+				}
 				if c.thr != nil {
 					CountThreshold(rep, *c.thr)
 					rep.Count(fmt.Sprintf("threshold-case:%s:%s", c.thr.String(), c.mode()))
@@ -1557,6 +1621,24 @@ func aeSequences(rep *Report, rp *aeReporter, n int, subimage bool, gen func(i i
 	return nil
 }
 
+// aeNormalised: the number of pictures the encoder has to normalise (not canvas-sized, non-zero origin or padded
+// stride) and whether one of them leaves uncovered a canvas pixel that an earlier one covered.
+func aeNormalised(c *aeCase) (n int, uncovered bool) {
+	mw, mh := 0, 0
+	for _, f := range c.frames {
+		if f.w == c.w && f.h == c.h && !f.view() {
+			continue
+		}
+		n++
+		w, h := mini(f.w, c.w), mini(f.h, c.h)
+		if w < mw || h < mh {
+			uncovered = true
+		}
+		mw, mh = maxi(mw, w), maxi(mh, h)
+	}
+	return
+}
+
 func aeNoteClass(s string) string {
 	if i := strings.Index(s, ": "); i >= 0 && strings.HasPrefix(s, "frame ") {
 		return s[i+2:]
@@ -1600,14 +1682,14 @@ func aeCanvasBucket(w, h int) string {
 func suiteAnimEnc(rep *Report) error {
 	aeInstallHooks()
 	rich := rep.Tier == "thorough"
-	rep.Rule = "frame sequences for the real animation.AnimEncoder built from (seed, case index): canvases 1..24 x 1..24 biased to 1x1, 2x2, 1xn and odd sizes; 1-6 frames (thorough: 5% with 7-40); every frame derived from its predecessor by exact repeat, one-pixel / block / >90% / completely new change, colour change of fully transparent pixels, clearing a region, making the previous change transparent again, small colour deltas, or a picture smaller/larger than the canvas; alpha opaque / binary / semi-transparent (128, random); durations small, 0, near 2^24 with repeats (filler frames) and a counted out-of-domain share (negative, 2^24, 2^31); Kmin/Kmax in {0,1,2,3,9}; loop in {0,1,7,65535,-3,65536,100000}; lossless/lossy x AllowMixed x quality {0,10,50,75,90,100}; plus fixed NewEncoder/Close error and canvas-limit cases. Hand-over of the pictures: a fresh picture per AddFrame, or (1 case in 4 of the main stream; every case of the reuse stream = Kmax 1..3, at least Kmax+2 frames; 1 in 4 of the wide stream) ONE canvas-sized *image.NRGBA of the caller that is redrawn before every AddFrame, half of those overwritten with garbage as soon as AddFrame has returned - such a run must equal the fresh-picture run of the same case in trace line, codec size comparisons, file bytes and played pictures (animenc:reuse-differs), all other oracles judge the pictures as they were at AddFrame time, and after every AddFrame of every stream the encoder's reference canvas must not share memory with the picture handed over (animenc:aliases-caller-buffer, verif hook VerifSharesPrevCanvas). Threshold / wide-row stream: per run 8 canvases drawn from the width / height thresholds >= 256 of thresholds.go (t-1, t, t+1 x {2,3}, widths up to 4200) plus 4 of WideWidths x {2,3} (thorough: all, three sequences each), 2-4 frames of cheap content (first picture flat / gradient / sparse / rows, then a line along the long side, pixels at both ends, a segment across a multiple of 1024, erase-the-last-change + dots, ...), lossless and lossy alternating, so that changed rectangles, blending scans and the dispose-to-background candidate work on rows longer than 1024 pixels (counted: wide:sub-frame>1024:*). Every size comparison of the encoder is observed on the real codec (recording wrappers around FrameEncoderFunc/SimpleEncodeFunc) and passed to the Lean model as oracle bit; the Go trace line (demuxed file + VerifState) must equal the model's line; the file is played back (DecodeBytes/DecodeFrames/AnimDecoder) and compared with the inputs (C08 for lossless non-mixed: pictures, per-picture display time, total, loop; C18 in every mode: alpha planes - split by root cause into frame-codec and encoder arithmetic - and ALPH presence). Plus unit correspondences of findChangedRect, snapToEven, blending predicates, qualityToMaxDiff (all 101), sanitizeKeyframeOptions, clampLoopCount, splitAlphaAndBitstream; a sub-image probe stream (properties only, differential against the same sequence as plain pictures); exhaustive two-frame 2x2 blocks with alpha {0,128,255} x two colours (quick: 4 lossless + 2 lossy first canvases, thorough: all 1296x1296 lossless and lossy; codec calls memoised per picture, every 1009th hit re-checked). non-trivial = at least 2 distinct pictures"
+	rep.Rule = "frame sequences for the real animation.AnimEncoder built from (seed, case index): canvases 1..24 x 1..24 biased to 1x1, 2x2, 1xn and odd sizes; 1-6 frames (thorough: 5% with 7-40); every frame derived from its predecessor by exact repeat, one-pixel / block / >90% / completely new change, colour change of fully transparent pixels, clearing a region, making the previous change transparent again, small colour deltas, or a picture smaller/larger than the canvas; alpha opaque / binary / semi-transparent (128, random); durations small, 0, near 2^24 with repeats (filler frames) and a counted out-of-domain share (negative, 2^24, 2^31); Kmin/Kmax in {0,1,2,3,9}; loop in {0,1,7,65535,-3,65536,100000}; lossless/lossy x AllowMixed x quality {0,10,50,75,90,100}; plus fixed NewEncoder/Close error and canvas-limit cases. Hand-over of the pictures: a fresh picture per AddFrame, or (1 case in 4 of the main stream; every case of the reuse stream = Kmax 1..3, at least Kmax+2 frames; 1 in 4 of the wide stream) ONE canvas-sized *image.NRGBA of the caller that is redrawn before every AddFrame, half of those overwritten with garbage as soon as AddFrame has returned - such a run must equal the fresh-picture run of the same case in trace line, codec size comparisons, file bytes and played pictures (animenc:reuse-differs), all other oracles judge the pictures as they were at AddFrame time, and after every AddFrame of every stream the encoder's reference canvas must not share memory with the picture handed over (animenc:aliases-caller-buffer, verif hook VerifSharesPrevCanvas). Threshold / wide-row stream: per run 8 canvases drawn from the width / height thresholds >= 256 of thresholds.go (t-1, t, t+1 x {2,3}, widths up to 4200) plus 4 of WideWidths x {2,3} (thorough: all, three sequences each), 2-4 frames of cheap content (first picture flat / gradient / sparse / rows, then a line along the long side, pixels at both ends, a segment across a multiple of 1024, erase-the-last-change + dots, ...), lossless and lossy alternating, so that changed rectangles, blending scans and the dispose-to-background candidate work on rows longer than 1024 pixels (counted: wide:sub-frame>1024:*). Scripted sizes pattern (1 in 10 of the lossless non-mixed cases of the main stream and every case of a dedicated stream of 24, three in four of them lossless non-mixed; thorough 800): an opening picture, then 3-5 consecutive pictures that are not canvas-sized and / or handed over as views with Rect.Min != (0,0) and Stride > 4*w, with shrinking, shifting (wide-short / narrow-tall) or mixed extents (one canvas-sized view, larger-than-canvas ones), Kmax 0/1 - a later picture leaves canvas pixels uncovered that an earlier one covered, they must play back transparent (counted: normalised-pictures:later-does-not-cover-earlier:*). Alpha stream (48 cases, thorough 2400; lossy, lossy+mixed, lossless+mixed): canvases 1x1..8x8, 4x8, 16x3, 16x16, 20x13 whose alpha plane is byte noise or has exactly 17 / 64 / 192 / 193 / 256 levels (capped by the pixel count; generator order or shuffled), 1-4 pictures, later ones new / large / block / row changes in the same alpha class, qualities 0..100 biased to 100. Frame-count stream: 4 animations per run (thorough: all, four each) of exactly n tiny pictures for n around the frame thresholds of thresholds.go (1-3, 29-31), the long ones with Kmax in {31,40,64,100,1000} so that the key-frame cache limit of sanitizeKeyframeOptions is crossed (recorded as threshold:<t>frames). Every size comparison of the encoder is observed on the real codec (recording wrappers around FrameEncoderFunc/SimpleEncodeFunc) and passed to the Lean model as oracle bit; the Go trace line (demuxed file + VerifState) must equal the model's line; the file is played back (DecodeBytes/DecodeFrames/AnimDecoder) and compared with the inputs (C08 for lossless non-mixed: pictures, per-picture display time, total, loop; C18 in every mode: alpha planes - split by root cause into frame-codec and encoder arithmetic - and ALPH presence). Plus unit correspondences of findChangedRect, snapToEven, blending predicates, qualityToMaxDiff (all 101), sanitizeKeyframeOptions, clampLoopCount, splitAlphaAndBitstream; a sub-image probe stream (properties only, differential against the same sequence as plain pictures); exhaustive two-frame 2x2 blocks with alpha {0,128,255} x two colours (quick: 4 lossless + 2 lossy first canvases, thorough: all 1296x1296 lossless and lossy; codec calls memoised per picture, every 1009th hit re-checked). non-trivial = at least 2 distinct pictures"
 	rp := newAeReporter(rep)
 	t0 := time.Now()
 	lap := func(name string) {
 		rep.Extra["wall_"+name+"_s"] = time.Since(t0).Seconds()
 		fmt.Fprintf(os.Stderr, "animenc: %s done after %.1fs\n", name, time.Since(t0).Seconds())
 	}
-	only := os.Getenv("VCHECK_ANIMENC_ONLY") // debugging aid: units|sequences|reuse|wide|subimage|exhaustive
+	only := os.Getenv("VCHECK_ANIMENC_ONLY") // debugging aid: units|sequences|sizes|alpha|frames|reuse|wide|subimage|exhaustive
 	if only != "" {
 		rep.Notes = append(rep.Notes, "partial run: VCHECK_ANIMENC_ONLY="+only)
 	}
@@ -1627,8 +1709,16 @@ func suiteAnimEnc(rep *Report) error {
 	}
 	lap("units")
 	nSeq, nSub, nReuse := 300, 40, 80
+	nSizes, nAlpha := 24, 48
 	if rich {
 		nSeq, nSub, nReuse = 10000, 600, 2500
+		nSizes, nAlpha = 800, 2400
+	}
+	if skip("sizes") {
+		nSizes = 0
+	}
+	if skip("alpha") {
+		nAlpha = 0
 	}
 	if skip("sequences") {
 		nSeq = 0
@@ -1650,6 +1740,9 @@ func suiteAnimEnc(rep *Report) error {
 	// pictures are handed over (1 in 4: one reused caller buffer, half of those scribbled on)
 	if err := aeSequences(rep, rp, nSeq, false, func(i int) *aeCase {
 		c := aeGenCase(NewRNG(rep.Seed, uint64(i)), rich)
+		if sr := NewRNG(rep.Seed, uint64(62_000_000+i)); c.lossless && !c.mixed && sr.Chance(1, 10) {
+			aeSizesScript(c, sr) // 1 in 10 of the lossless non-mixed cases: the scripted sizes pattern
+		}
 		if fr := NewRNG(rep.Seed, uint64(60_000_000+i)); fr.Chance(1, 4) {
 			c.reuse, c.scribble = true, fr.Bool()
 		}
@@ -1658,6 +1751,35 @@ func suiteAnimEnc(rep *Report) error {
 		return err
 	}
 	lap("sequences")
+	// sizes stream: every case follows the scripted sizes pattern (consecutive pictures that need normalising);
+	// alpha stream: noise / exactly-n-level alpha planes on small canvases, lossy and mixed;
+	// frame-count stream: animation lengths around the frame thresholds (one driver batch for the three)
+	var fcs []*aeCase
+	if !skip("frames") {
+		ccs := DrawCountCases(rep.Seed, 0xae0f, 4, "frames", 2, 40)
+		reps := 1
+		if rich {
+			ccs, reps = FrameCounts(40), 4
+		}
+		for _, cc := range ccs {
+			for k := 0; k < reps; k++ {
+				fcs = append(fcs, aeGenFramesCase(NewRNG(rep.Seed, uint64(65_000_000+len(fcs))), cc, len(fcs)))
+			}
+		}
+	}
+	if err := aeSequences(rep, rp, nSizes+nAlpha+len(fcs), false, func(i int) *aeCase {
+		switch {
+		case i < nSizes:
+			return aeGenSizesCase(NewRNG(rep.Seed, uint64(63_000_000+i)), i)
+		case i < nSizes+nAlpha:
+			i -= nSizes
+			return aeGenAlphaCase(NewRNG(rep.Seed, uint64(64_000_000+i)), i+int(rep.Seed%12))
+		}
+		return fcs[i-nSizes-nAlpha]
+	}); err != nil {
+		return err
+	}
+	lap("sizes+alpha+frames")
 	// reuse stream: forced key frames (Kmax 1..3), enough frames for one more picture after the first
 	// non-initial key frame, always one reused caller buffer (odd indices: scribbled on)
 	if err := aeSequences(rep, rp, nReuse, false, func(i int) *aeCase {
